@@ -320,6 +320,10 @@ def _main(prop_id, args, seed, t0, scratch):
         step = max(1, int(round(1 / args.scale)))
         fixed_cases = fixed_cases[::step]
     gen_total = int(prop.n_generated(tier) * args.scale) if hasattr(prop, "n_generated") else 0
+    if os.environ.get("VERIF_ONLY_GENERATED"):
+        # developer saturation runs: only the seed-dependent part, scaled up
+        fixed_cases = []
+        gen_total = int(gen_total * float(os.environ["VERIF_ONLY_GENERATED"]))
 
     with concurrent.futures.ProcessPoolExecutor(max_workers=n_workers, mp_context=ctx, initializer=_winit, initargs=(prop_id, tier, scratch)) as ex:
         futs = []
